@@ -298,9 +298,14 @@ class AssignBase(StatementBase):
         get_deps = self.get_dependency_mapper()
 
         def get_vars(expr):
-            return frozenset(dep.name for dep in get_deps(self.rhs))
+            return frozenset(dep.name for dep in get_deps(expr))
 
-        result = get_vars(self.rhs) | get_vars(self.lhs)
+        result = result | get_vars(self.rhs)
+
+        # A subscripted assignee reads the variables in its subscript.
+        from pymbolic.primitives import Subscript
+        if isinstance(self.lhs, Subscript):
+            result = result | get_vars(self.lhs.index)
 
         return result
 
